@@ -28,7 +28,7 @@ ASSUMPTIONS = ["numpy SVD (LAPACK) is the trusted reference for the best-fit pro
                "point sets with triangle area <= 0.05 A^2 are excluded as degenerate (property: non-collinear)"]
 MIN = {"quick": {"fit_calls": 15000, "equivariance_checks": 3000, "torsion_calls": 1500, "tetra_calls": 150},
        "thorough": {"fit_calls": 500000, "equivariance_checks": 100000, "torsion_calls": 40000,
-                    "tetra_calls": 4000}}
+                    "tetra_calls": 3000}}
 
 
 def cases(tier, seed):
